@@ -411,6 +411,28 @@ class Function:
             out.append(r)
         return out
 
+    def error_jumps(self):
+        """CFG positions of the jumps into the failure exit (goto ERROR / FAIL ...): a path that takes one is a
+        failure path even if the function has a single `return status;`"""
+        if getattr(self, "_ej", None) is None:
+            import re as _re
+            self._ej = [p for p in (self.cfg.position(g) for g in self.body.find("GotoStmt")
+                                    if _re.search(r"err|fail", g.d["label"], _re.I)) if p is not None]
+        return self._ej
+
+    def succeeds_avoiding(self, avoid):
+        """is there a path from entry to a success return that takes no failure jump and executes none of `avoid`?"""
+        cfg = self.cfg
+        av = list(avoid) + self.error_jumps()
+        rets = self.success_returns()
+        if not self.returns():
+            return cfg.reaches(None, (cfg.exit, -1), avoid=av)
+        for r in rets:
+            rp = cfg.position(r)
+            if rp is not None and cfg.reaches(None, rp, avoid=av):
+                return True
+        return False
+
     def label(self, name):
         for n in self.body.find("LabelStmt"):
             if n.d["label"] == name:
